@@ -119,7 +119,7 @@ class Tree:
         for p, c in sc["sources"].items():
             if not os.path.exists(self.path(p)) or open(self.path(p)).read() != c:
                 self.write(p, c)
-        self.write("build.ninja", render(sc, self.vtool, self.log, extra))
+        self.write("build.ninja", render(sc, self.vtool, ".vtool.log", extra))
 
     # ---- edits with a timestamp barrier: the new mtime is strictly larger than anything in the tree
     def _barrier(self):
@@ -207,6 +207,8 @@ class Tree:
     def snapshot(self, with_logs=False):
         r = {}
         for root, dirs, files in os.walk(self.d):
+            for dn in dirs:
+                r[os.path.relpath(os.path.join(root, dn), self.d) + "/"] = (0, "<dir>")
             for f in files:
                 fp = os.path.join(root, f)
                 rel = os.path.relpath(fp, self.d)
